@@ -5,6 +5,8 @@ amount, seeks with any offset/whence, enable/disable at any point, any number of
 every aggregation threshold, every sequence of raw progress values.
 -/
 import S3V.Lemmas.Chunk
+import S3V.Props.C02
+import S3V.Props.C14
 
 namespace S3V.C09
 open S3V.Chunk
@@ -203,6 +205,29 @@ theorem agg_delivered_is_running_total (a : Agg) (vs : List Int) (d : Int) (pre 
       refine ⟨k + 1, by simp; omega, ?_⟩
       simp only [List.take_succ_cons, List.sum_cons] at hs ⊢
       omega
+
+/-! ### downloads and copies -/
+
+/-- **Download progress per range**: whatever the attempts do (short reads, retryable faults
+anywhere, up to the budget), the running sum of the values reported for a range stays in
+`[0,len]`; on success the total is exactly `len` — every abandoned attempt was taken back by
+exactly what it had reported — and it is 0 when the budget ran out. -/
+theorem download_progress (io start len : Nat) (hio : 0 < io) (n : Nat)
+    (attempts : List S3V.Download.Attempt) :
+    S3V.C02.RunningIn 0 len 0 (S3V.Download.progressOf (S3V.Download.getObject io start len n attempts).1) ∧
+    ((S3V.Download.getObject io start len n attempts).2 = .ok →
+      (S3V.Download.progressOf (S3V.Download.getObject io start len n attempts).1).sum = len) ∧
+    ((S3V.Download.getObject io start len n attempts).2 = .retriesExceeded →
+      (S3V.Download.progressOf (S3V.Download.getObject io start len n attempts).1).sum = 0) := by
+  have := S3V.C02.getObject_spec io start len hio n attempts
+  exact ⟨this.2.2.2.1, this.2.2.2.2.1, this.2.2.2.2.2⟩
+
+/-- **Copy progress**: each part reports its size once, and the sizes sum to the object size
+(multipart), respectively the single value is the size (one CopyObject). -/
+theorem copy_progress (size c : Nat) (hc : 0 < c) (hs : 0 < size) :
+    (((List.range (S3V.Plan.ceilDiv size c)).map
+        fun i => S3V.Plan.copyPartSize c i (S3V.Plan.ceilDiv size c) size).sum : Int) = size :=
+  S3V.C14.copy_sizes_sum size c hc hs
 
 /-! ### non-vacuity: botocore's body protocol on a 10-byte window, threshold 4 -/
 example :
